@@ -2,6 +2,7 @@ package registrycontract
 
 import (
 	"context"
+	"fmt"
 	"log/slog"
 	"math/big"
 	"strings"
@@ -79,7 +80,7 @@ func (r *registryContract) RegisterProvider(ctx context.Context, amount *big.Int
 			"txnHash", txnHash,
 			"receipt", receipt,
 		)
-		return err
+		return fmt.Errorf("transaction %s failed with status %d", txnHash.Hex(), receipt.Status)
 	}
 
 	r.logger.Info("provider_registry contract registerAndStake successful", "txnHash", txnHash)
